@@ -166,7 +166,7 @@ func LoadRepo(repo string, cfg BuildConfig) (*World, error) {
 		if fn.Pkg == nil || w.SSA[fn.Pkg.Pkg.Path()] == nil {
 			continue
 		}
-		if fn.Synthetic != "" && !strings.HasPrefix(fn.Synthetic, "package init") {
+		if fn.Synthetic != "" && !strings.HasPrefix(fn.Synthetic, "package init") && !strings.HasPrefix(fn.Synthetic, "range-over-func") {
 			continue
 		}
 		w.funcs[w.FuncName(fn)] = fn
